@@ -788,7 +788,7 @@ fn a22tcp__make_eih(kind: &CipherKind, sub_key: &[u8], ipsk: &[u8], out: &mut By
     out.extend_from_slice(&ipsk_encrypt_text);
 }
 
-//@@ octo-squirrel/src/codec/shadowsocks/tcp.rs:29-35  struct Context  sha=f38c8bead60f1e38
+//@@ octo-squirrel/src/codec/shadowsocks/tcp.rs:30-36  struct Context  sha=f38c8bead60f1e38
 pub struct Context<const N: usize> {
     key: [u8; N],
     identity_keys: Vec<[u8; N]>,
@@ -797,7 +797,7 @@ pub struct Context<const N: usize> {
     nonce_cache: Mutex<LruCache<[u8; N], ()>>,
 }
 
-//@@ octo-squirrel/src/codec/shadowsocks/tcp.rs:37-59  impl Context {fn new}  sha=38c9b6319228a648
+//@@ octo-squirrel/src/codec/shadowsocks/tcp.rs:38-59  impl Context {fn new}  sha=38c9b6319228a648
 impl<const N: usize> Context<N> {
     fn new(key: [u8; N], identity_keys: Vec<[u8; N]>, kind: CipherKind, user_manager: Option<Arc<ServerUserManager<N>>>) -> Self {
         // a salt has to be remembered for as long as its timestamp can still be accepted (2 x 30s window, rounded up)
@@ -812,7 +812,7 @@ pub struct AEADCipherCodec<const N: usize> {
     decoder: Option<ChunkDecoder>,
 }
 
-//@@ octo-squirrel/src/codec/shadowsocks/tcp.rs:67-253  impl AEADCipherCodec  sha=cd3f85772c271d88
+//@@ octo-squirrel/src/codec/shadowsocks/tcp.rs:67-255  impl AEADCipherCodec  sha=9a2d461b15ffaabd
 impl<const N: usize> AEADCipherCodec<N> {
     fn encode(&mut self, context: &Context<N>, session: &Session<N>, mut item: BytesMut, dst: &mut BytesMut) -> anyhow::Result<()> {
         match self.encoder {
@@ -969,7 +969,9 @@ impl<const N: usize> AEADCipherCodec<N> {
         };
         let length = header.get_u16() as usize;
         if _src.remaining() >= length + tag_size {
-            context.set_nonce(salt, Tracked(vcache));
+            if !context.set_nonce(salt, Tracked(vcache)) {
+                return Err(verif_err());
+            }
             let position = _src.position();
             let src = _src.into_inner();
             src.advance(position as usize);
@@ -1001,21 +1003,21 @@ impl<const N: usize> AEADCipherCodec<N> {
     }
 }
 
-//@@ octo-squirrel/src/codec/shadowsocks/tcp.rs:255-262  struct Session  sha=1392850d69a201bf
+//@@ octo-squirrel/src/codec/shadowsocks/tcp.rs:257-264  struct Session  sha=1392850d69a201bf
 pub struct Session<const N: usize> {
     mode: Mode,
     identity: Identity<N>,
     pub address: Option<Address>,
     }
 
-//@@ octo-squirrel/src/codec/shadowsocks/tcp.rs:264-268  impl Session  sha=21df35fa41e24243
+//@@ octo-squirrel/src/codec/shadowsocks/tcp.rs:266-270  impl Session  sha=21df35fa41e24243
 impl<const N: usize> Session<N> {
     fn new(mode: Mode, identity: Identity<N>, address: Option<Address>) -> Self {
         Self { mode, identity, address }
     }
 }
 
-//@@ octo-squirrel/src/codec/shadowsocks/tcp.rs:270-274  struct Identity  sha=1d0a7a0e004ea6f4
+//@@ octo-squirrel/src/codec/shadowsocks/tcp.rs:272-276  struct Identity  sha=1d0a7a0e004ea6f4
 pub struct Identity<const N: usize> {
     pub salt: [u8; N],
     pub request_salt: Option<[u8; N]>,
